@@ -197,6 +197,12 @@ def stream_models(n):
         M("stream", "wrapped_off", t, "(stream(%s)[1:])" % src([0] + t)),
         M("stream", "mapped", t, "((1 to %d) lazy_map (* 10))" % n),
         M("stream", "range_drop", t, "((0 til %d by 10) drop 1)" % (10 * n + 10)),
+        # bounds that are not a whole number of steps away from the start (closed forms that count from the
+        # end bound instead of the last element go wrong exactly here)
+        M("stream", "range_ragged", t, "(10 til %d by 10)" % (10 * n + 5)),
+        M("stream", "range_to_ragged", t, "(10 to %d by 10)" % (10 * n + 7)),
+        M("stream", "range_neg_ragged", t[::-1], "(%d til 3 by (-10))" % (10 * n)),
+        M("stream", "range_ragged_drop", t, "((0 til %d by 10) drop 1)" % (10 * n + 4)),
     ]
 
 
@@ -402,6 +408,11 @@ class Runner:
                              self.replay(c))
                 return
         else:
+            if o in ("break", "continue", "return"):
+                # "raises an index error" means an ordinary catchable error, not a loop exit leaving the access
+                self.violation(c, "%s|escaped-%s" % (c.key, o), "%s ended as `%s` (%s) instead of a value or a catchable error" % (
+                    c.text, o, str(ev.get("err"))[:60]), self.replay(c))
+                return
             if not c.exp.throw:
                 err = str(ev.get("err") or ev.get("thrown") or o)
                 if c.op in ("!?", "!%") and c.m.kind == "stream" and "type error" in err:
